@@ -1,8 +1,10 @@
 /-
   Proofs.KdfHkdf — `hkdf_extract` / `hkdf_expand` (Impl.Kdf, the model of src/hkdf.rs) over ANY digest object
   satisfying the digest-object contract equal RFC 5869: Extract = HMAC-Hash(salt, IKM); Expand = the first L octets of
-  T(1) ‖ T(2) ‖ …, T(i) = HMAC-Hash(PRK, T(i−1) ‖ info ‖ i), for every L ≤ 255·HashLen, and a refusal (the one-byte
-  counter's `checked_add`) for every larger L.  Induction over the chunk list.  Core Lean only.
+  T(1) ‖ T(2) ‖ …, T(i) = HMAC-Hash(PRK, T(i−1) ‖ info ‖ i), for every PRK of at least HashLen octets and every
+  L ≤ 255·HashLen, and a refusal for every shorter PRK (`assert!(prk.len() >= digest.output_bytes())`) and every larger L
+  (the one-byte counter's `checked_add`).  `hkdf_expand_old_spec`: the function before that assert computed the same value
+  for EVERY PRK length (witness of the repaired finding).  Induction over the chunk list.  Core Lean only.
 -/
 import CxVerif.Impl.Kdf
 import CxVerif.Spec.Kdf
@@ -242,14 +244,16 @@ theorem hkdf_extract_spec (hD : Contract (digestFam D) L [L, bits, B] (fun _ => 
     simp [hkdf_extract, hob, e1, e2, e3', e4', e5', Spec.Kdf.hkdfExtract]
   · simp [hkdf_extract, hob, hp]
 
-/-- **HKDF-Expand = RFC 5869 §2.3**, generic in the digest object: for every PRK, info and L the model of
-    `hkdf_expand(digest, prk, info, okm[L])` returns the first L octets of T(1) ‖ T(2) ‖ … when L ≤ 255·HashLen and
-    refuses (`none`: the checked increment of the one-byte block counter) when L > 255·HashLen. -/
-theorem hkdf_expand_spec (hD : Contract (digestFam D) L [L, bits, B] (fun _ => none) okD RelD FinD) (hLB : L ≤ B)
+/-- the loop part of `hkdf_expand` (everything after `Hmac::new`), i.e. the function as it was BEFORE
+    `assert!(prk.len() >= digest.output_bytes())` was added: for every PRK (of any length), info and L it returns the first
+    L octets of T(1) ‖ T(2) ‖ … when L ≤ 255·HashLen and refuses (`none`: the checked increment of the one-byte block
+    counter) when L > 255·HashLen. -/
+theorem hkdf_expand_old_spec (hD : Contract (digestFam D) L [L, bits, B] (fun _ => none) okD RelD FinD) (hLB : L ≤ B)
     (hL : 0 < L) (d : δ) (m0 : Bytes) (hd : RelD d H m0 ∨ FinD d H) (prk info : Bytes) (okmLen : Nat)
     (hk : prk.length ≤ B ∨ okD H prk)
     (hok : ∀ x : Bytes, x.length ≤ L + info.length + 1 → okH H B prk okD (Spec.Hmac.hmac H B prk) x) :
-    hkdf_expand D d prk info okmLen = Spec.Kdf.hkdfExpand H B L prk info okmLen := by
+    hkdf_expand_old D d prk info okmLen
+      = if okmLen ≤ 255 * L then some (Spec.Kdf.hkdfOkm (Spec.Hmac.hmac H B) L prk info okmLen) else none := by
   obtain ⟨d1, e1, hr1⟩ : ∃ d1, D.reset d = some d1 ∧ RelD d1 H [] := by
     rcases hd with h | h
     · exact hD.reset d H m0 h
@@ -265,12 +269,36 @@ theorem hkdf_expand_spec (hD : Contract (digestFam D) L [L, bits, B] (fun _ => n
     have hc2 : (chunkLens L okmLen).length = Spec.Kdf.ceilDiv okmLen L :=
       Cx.Proofs.KdfHkdf.chunkLens_length' L okmLen hL
     rw [cutTs_chunkLens L hL _ okmLen hl (by rw [hkdfTs_length])] at e
-    simp [hkdf_expand, e1, e2, hob, Nat.ne_of_gt hL, e, Spec.Kdf.hkdfExpand, Spec.Kdf.hkdfExpandPrf, hle, hc2]
+    simp [hkdf_expand_old, e1, e2, hob, Nat.ne_of_gt hL, e, Spec.Kdf.hkdfOkm, hle, hc2]
   · have := expand_loop_refuses D hC (Spec.Hmac.hmac H B prk) info hok (chunkLens L okmLen) h (zeros L) 0 []
       hrh (by simp [zeros]) (chunkLens_le' L okmLen hL) (by decide) (by
         have : ¬ (chunkLens L okmLen).length ≤ 255 := fun hh => hle (hcnt.mp hh)
         omega)
-    simp [hkdf_expand, e1, e2, hob, Nat.ne_of_gt hL, this, Spec.Kdf.hkdfExpand, Spec.Kdf.hkdfExpandPrf, hle]
+    simp [hkdf_expand_old, e1, e2, hob, Nat.ne_of_gt hL, this, hle]
+
+/-- the repaired function = the assert in front of the old one: a PRK shorter than `digest.output_bytes()` (read after
+    `digest.reset()`) is refused before the HMAC object is built -/
+theorem hkdf_expand_eq_assert_old (d d1 : δ) (e1 : D.reset d = some d1) (prk info : Bytes) (okmLen : Nat) :
+    hkdf_expand D d prk info okmLen
+      = if prk.length < D.output_bytes d1 then none else hkdf_expand_old D d prk info okmLen := by
+  simp only [hkdf_expand, hkdf_expand_old, e1, ge_iff_le, Nat.not_le]
+
+/-- **HKDF-Expand = RFC 5869 §2.3**, generic in the digest object: for every PRK, info and L the model of
+    `hkdf_expand(digest, prk, info, okm[L])` refuses (`none`: `assert!(prk.len() >= digest.output_bytes())`) a PRK shorter
+    than HashLen, returns the first L octets of T(1) ‖ T(2) ‖ … when |PRK| ≥ HashLen and L ≤ 255·HashLen, and refuses
+    (`none`: the checked increment of the one-byte block counter) when L > 255·HashLen. -/
+theorem hkdf_expand_spec (hD : Contract (digestFam D) L [L, bits, B] (fun _ => none) okD RelD FinD) (hLB : L ≤ B)
+    (hL : 0 < L) (d : δ) (m0 : Bytes) (hd : RelD d H m0 ∨ FinD d H) (prk info : Bytes) (okmLen : Nat)
+    (hk : prk.length ≤ B ∨ okD H prk)
+    (hok : ∀ x : Bytes, x.length ≤ L + info.length + 1 → okH H B prk okD (Spec.Hmac.hmac H B prk) x) :
+    hkdf_expand D d prk info okmLen = Spec.Kdf.hkdfExpand H B L prk info okmLen := by
+  obtain ⟨d1, e1, hr1⟩ : ∃ d1, D.reset d = some d1 ∧ RelD d1 H [] := by
+    rcases hd with h | h
+    · exact hD.reset d H m0 h
+    · exact hD.reset_fin d H h
+  have hob : D.output_bytes d1 = L := hD.out_rel d1 H [] hr1
+  rw [hkdf_expand_eq_assert_old D d d1 e1, hob, hkdf_expand_old_spec D H B RelD FinD hD hLB hL d m0 hd prk info okmLen hk hok]
+  rfl
 
 end
 end Cx.Proofs.KdfHkdf
